@@ -181,8 +181,13 @@ def getLevel (o : AvObj) (n : Nat) : Except Err (AvObj × List NSeq) :=
   | .error e => .error e
   | .ok o' => .ok (o', (o'.cache.getD n []).keys)
 
-/-- a fresh class object: `AvBase.__new__(cls, basis, [{Perm(): [0]}])` (permset.py:44) -/
-def freshObj (b : BasisV) : AvObj := ⟨b, [[([], some [0])]]⟩
+/-- a fresh class object (permset.py:44-47): level 0 is `{Perm(): [0]}` when the empty permutation
+    avoids the basis (always, for an accepted classical basis) and `{}` otherwise (a mesh basis that
+    contains an empty pattern) -/
+def freshObj (b : BasisV) : AvObj :=
+  match b with
+  | .classical _ => ⟨b, [[([], some [0])]]⟩
+  | .mesh l => if l.all (fun m => !containsMesh [] m) then ⟨b, [[([], some [0])]]⟩ else ⟨b, [[]]⟩
 
 /-! ## Process state: class cache, named objects, open iterators -/
 
